@@ -32,6 +32,10 @@ def static_outcome(stmts):
             r = static_outcome(st[2])
             if r is not None:
                 return r
+        if k == "handler":
+            r = static_outcome(st[1])
+            if r is not None:
+                return r
     return None
 
 
@@ -43,7 +47,7 @@ def all_exns(stmts, acc=None):
             acc[st[1]["id"]] = st[1]
         elif k == "act":
             all_exns(st[8], acc)
-        elif k == "try":
+        elif k in ("try", "handler"):
             all_exns(st[1], acc)
         elif k == "handoff":
             all_exns(st[5], acc)
@@ -59,7 +63,7 @@ def all_acts(stmts, acc=None):
         if k == "act":
             acc[st[1]] = st
             all_acts(st[8], acc)
-        elif k == "try":
+        elif k in ("try", "handler"):
             all_acts(st[1], acc)
         elif k == "handoff":
             all_acts(st[5], acc)
@@ -200,7 +204,7 @@ def oracle_c03(case, obs):
                 return "action %d failed with an exception the program did not raise (%r)" % (h, rec["exc"])
             if e.get("exception") != class_name(case, x["cls"]):
                 return "action %d: exception field %r, expected %r" % (h, e.get("exception"), class_name(case, x["cls"]))
-            want = progs.SAFEFAIL if x["sr"] else "text%d" % x["text"]
+            want = progs.SAFEFAIL if x["sr"] else progs.exn_text(x["text"])
             if e.get("reason") != want:
                 return "action %d: reason %r, expected %r" % (h, e.get("reason"), want)
             ext = expected_extractor(case, x["cls"])
@@ -317,7 +321,7 @@ def oracle_c08(case, obs):
                 x = obs["dest_exn"][str(i)]
                 if r.get("exception") != class_name(case, x["cls"]):
                     return "report for destination %d names exception %r" % (i, r.get("exception"))
-                want = progs.SAFEFAIL if x["sr"] else "text%d" % x["text"]
+                want = progs.SAFEFAIL if x["sr"] else progs.exn_text(x["text"])
                 if r.get("reason") != want:
                     return "report for destination %d has reason %r, expected %r" % (i, r.get("reason"), want)
         j = k
